@@ -12,61 +12,61 @@ Definition s0 : sstate := mkS (mkG (fun _ => []) (fun _ => false)) (fun _ => 0) 
 Ltac dec := cbv; try congruence; try reflexivity; try lia.
 
 Example safety_nonvacuous :
-  exists p, areach vs3 p /\ In (1, 0%nat, (1, 7)) (snd p) /\ In (2, 0%nat, (1, 7)) (snd p).
+  exists p, areach vs3 [] p /\ In (1, 0%nat, (1, 7)) (snd p) /\ In (2, 0%nat, (1, 7)) (snd p).
 Proof.
-  assert (R0 : areach vs3 (s0, [])).
+  assert (R0 : areach vs3 [] (s0, [])).
   { apply areach_init. repeat split; intros; reflexivity. }
   (* node 1 campaigns in term 1, votes for itself, node 2 votes for it *)
-  assert (R1 := areach_step vs3 _ _ R0 (AProto vs3 _ _ [] (SCampaign vs3 s0 1 1 ltac:(dec)))).
-  match type of R1 with areach _ (?s, _) => set (s1 := s) in R1 end.
-  eassert (V1 : sstep vs3 s1 _).
-  { apply (SVote vs3 s1 1 1 1); [dec|dec|dec|dec|intros r []|right; split; dec]. }
-  assert (R2 := areach_step vs3 _ _ R1 (AProto vs3 _ _ [] V1)). clear V1.
-  match type of R2 with areach _ (?s, _) => set (s2 := s) in R2 end.
-  eassert (V2 : sstep vs3 s2 _).
-  { apply (SVote vs3 s2 2 1 1); [dec|dec|dec|dec| |right; split; dec].
+  assert (R1 := areach_step vs3 [] _ _ R0 (AProto vs3 [] _ _ [] (SCampaign vs3 [] s0 1 1 ltac:(dec)))).
+  match type of R1 with areach _ _ (?s, _) => set (s1 := s) in R1 end.
+  eassert (V1 : sstep vs3 [] s1 _).
+  { apply (SVote vs3 [] s1 1 1 1); [dec|dec|dec|dec|intros r []|right; split; dec]. }
+  assert (R2 := areach_step vs3 [] _ _ R1 (AProto vs3 [] _ _ [] V1)). clear V1.
+  match type of R2 with areach _ _ (?s, _) => set (s2 := s) in R2 end.
+  eassert (V2 : sstep vs3 [] s2 _).
+  { apply (SVote vs3 [] s2 2 1 1); [dec|dec|dec|dec| |right; split; dec].
     intros r [E|[]] A B. subst r. reflexivity. }
-  assert (R3 := areach_step vs3 _ _ R2 (AProto vs3 _ _ [] V2)). clear V2.
-  match type of R3 with areach _ (?s, _) => set (s3 := s) in R3 end.
+  assert (R3 := areach_step vs3 [] _ _ R2 (AProto vs3 [] _ _ [] V2)). clear V2.
+  match type of R3 with areach _ _ (?s, _) => set (s3 := s) in R3 end.
   (* it becomes leader of term 1 and appends payload 7 *)
-  eassert (B : sstep vs3 s3 _).
-  { eapply (SBecomeLeader vs3 s3 1 1); [dec|dec|dec|unfold majority; cbv; lia| |reflexivity].
+  eassert (B : sstep vs3 [] s3 _).
+  { eapply (SBecomeLeader vs3 [] s3 1 1); [dec|dec|dec|reflexivity| |reflexivity].
     apply (BecomeLeader (sg s3) 1 1). dec. }
-  assert (R4 := areach_step vs3 _ _ R3 (AProto vs3 _ _ [] B)). clear B.
-  match type of R4 with areach _ (?s, _) => set (s4 := s) in R4 end.
-  eassert (A : sstep vs3 s4 _).
-  { eapply (SLeaderAppend vs3 s4 1 1 7); [dec|dec|dec|dec|reflexivity]. }
-  assert (R5 := areach_step vs3 _ _ R4 (AProto vs3 _ _ [] A)). clear A.
-  match type of R5 with areach _ (?s, _) => set (s5 := s) in R5 end.
+  assert (R4 := areach_step vs3 [] _ _ R3 (AProto vs3 [] _ _ [] B)). clear B.
+  match type of R4 with areach _ _ (?s, _) => set (s4 := s) in R4 end.
+  eassert (A : sstep vs3 [] s4 _).
+  { eapply (SLeaderAppend vs3 [] s4 1 1 7); [dec|dec|dec|dec|reflexivity]. }
+  assert (R5 := areach_step vs3 [] _ _ R4 (AProto vs3 [] _ _ [] A)). clear A.
+  match type of R5 with areach _ _ (?s, _) => set (s5 := s) in R5 end.
   (* node 2 accepts the entry; both acknowledge; the leadership commits position 0 *)
-  eassert (F : sstep vs3 s5 _).
-  { eapply (SFollowerAppend vs3 s5 2 1 0%nat 1%nat 0); [dec|dec|dec|dec|reflexivity]. }
-  assert (R6a := areach_step vs3 _ _ R5 (AProto vs3 _ _ [] F)). clear F.
-  match type of R6a with areach _ (?s, _) => set (s6a := s) in R6a end.
+  eassert (F : sstep vs3 [] s5 _).
+  { eapply (SFollowerAppend vs3 [] s5 2 1 0%nat 1%nat 0); [dec|dec|dec|dec|reflexivity]. }
+  assert (R6a := areach_step vs3 [] _ _ R5 (AProto vs3 [] _ _ [] F)). clear F.
+  match type of R6a with areach _ _ (?s, _) => set (s6a := s) in R6a end.
   (* node 2 crashes before acknowledging, loses the entry, and accepts it again after the restart *)
-  eassert (Z : sstep vs3 s6a _).
-  { eapply (SLose vs3 s6a 2 0%nat); [intros t k' []|reflexivity]. }
-  assert (R6b := areach_step vs3 _ _ R6a (AProto vs3 _ _ [] Z)). clear Z.
-  match type of R6b with areach _ (?s, _) => set (s6b := s) in R6b end.
-  eassert (F : sstep vs3 s6b _).
-  { eapply (SFollowerAppend vs3 s6b 2 1 0%nat 1%nat 0); [dec|dec|dec|dec|reflexivity]. }
-  assert (R6 := areach_step vs3 _ _ R6b (AProto vs3 _ _ [] F)). clear F.
-  match type of R6 with areach _ (?s, _) => set (s6 := s) in R6 end.
-  eassert (K1 : sstep vs3 s6 _) by (apply (SAck vs3 s6 1 1 1%nat); dec).
-  assert (R7 := areach_step vs3 _ _ R6 (AProto vs3 _ _ [] K1)). clear K1.
-  match type of R7 with areach _ (?s, _) => set (s7 := s) in R7 end.
-  eassert (K2 : sstep vs3 s7 _) by (apply (SAck vs3 s7 2 1 1%nat); dec).
-  assert (R8 := areach_step vs3 _ _ R7 (AProto vs3 _ _ [] K2)). clear K2.
-  match type of R8 with areach _ (?s, _) => set (s8 := s) in R8 end.
-  eassert (C : sstep vs3 s8 _).
-  { apply (SCommit vs3 s8 1 0%nat (1, 7)); [dec|dec|dec|unfold majority; cbv; lia]. }
-  assert (R9 := areach_step vs3 _ _ R8 (AProto vs3 _ _ [] C)). clear C.
-  match type of R9 with areach _ (?s, _) => set (s9 := s) in R9 end.
+  eassert (Z : sstep vs3 [] s6a _).
+  { eapply (SLose vs3 [] s6a 2 0%nat); [intros t k' []|reflexivity]. }
+  assert (R6b := areach_step vs3 [] _ _ R6a (AProto vs3 [] _ _ [] Z)). clear Z.
+  match type of R6b with areach _ _ (?s, _) => set (s6b := s) in R6b end.
+  eassert (F : sstep vs3 [] s6b _).
+  { eapply (SFollowerAppend vs3 [] s6b 2 1 0%nat 1%nat 0); [dec|dec|dec|dec|reflexivity]. }
+  assert (R6 := areach_step vs3 [] _ _ R6b (AProto vs3 [] _ _ [] F)). clear F.
+  match type of R6 with areach _ _ (?s, _) => set (s6 := s) in R6 end.
+  eassert (K1 : sstep vs3 [] s6 _) by (apply (SAck vs3 [] s6 1 1 1%nat); dec).
+  assert (R7 := areach_step vs3 [] _ _ R6 (AProto vs3 [] _ _ [] K1)). clear K1.
+  match type of R7 with areach _ _ (?s, _) => set (s7 := s) in R7 end.
+  eassert (K2 : sstep vs3 [] s7 _) by (apply (SAck vs3 [] s7 2 1 1%nat); dec).
+  assert (R8 := areach_step vs3 [] _ _ R7 (AProto vs3 [] _ _ [] K2)). clear K2.
+  match type of R8 with areach _ _ (?s, _) => set (s8 := s) in R8 end.
+  eassert (C : sstep vs3 [] s8 _).
+  { apply (SCommit vs3 [] s8 1 0%nat (1, 7)); [dec|dec|dec|reflexivity]. }
+  assert (R9 := areach_step vs3 [] _ _ R8 (AProto vs3 [] _ _ [] C)). clear C.
+  match type of R9 with areach _ _ (?s, _) => set (s9 := s) in R9 end.
   (* both nodes hand position 0 to their state machines *)
   assert (CL : forall m, m = 1 \/ m = 2 -> can_learn s9 m 0%nat 1).
   { intros m Hm. exists 0%nat, (1, 7). destruct Hm; subst m; repeat split; dec; left; reflexivity. }
-  assert (R10 := areach_step vs3 _ _ R9 (AApply vs3 s9 [] 1 0%nat 1 (1, 7) (CL 1 (or_introl eq_refl)) eq_refl)).
-  assert (R11 := areach_step vs3 _ _ R10 (AApply vs3 s9 _ 2 0%nat 1 (1, 7) (CL 2 (or_intror eq_refl)) eq_refl)).
+  assert (R10 := areach_step vs3 [] _ _ R9 (AApply vs3 [] s9 [] 1 0%nat 1 (1, 7) (CL 1 (or_introl eq_refl)) eq_refl)).
+  assert (R11 := areach_step vs3 [] _ _ R10 (AApply vs3 [] s9 _ 2 0%nat 1 (1, 7) (CL 2 (or_intror eq_refl)) eq_refl)).
   eexists. split; [exact R11|]. cbn. auto.
 Qed.
 
